@@ -1,0 +1,77 @@
+//! Verification hooks (cargo feature `verif`, off by default).
+//!
+//! Nothing in this module runs unless a harness calls [`install`]; with no
+//! hooks installed every function here is the identity / a no-op.
+
+use std::sync::OnceLock;
+
+/// Scheduling points placed inside the engine.
+#[derive(Clone, Copy, Debug, PartialEq, Eq, Hash)]
+#[repr(u8)]
+pub enum Site {
+    /// `panic_catcher_set_hook`: after the "already installed" flag was read.
+    SetHookAfterLoad = 0,
+    /// `panic_catcher_set_hook`: after `take_hook` returned.
+    SetHookAfterTake = 1,
+    /// `panic_catcher_set_hook`: after `set_hook` returned.
+    SetHookAfterSet = 2,
+    /// `catch_panic`: after the nesting level was incremented.
+    CatchAfterStart = 3,
+    /// `catch_panic`: after `catch_unwind` returned, before the level is restored.
+    CatchAfterUnwind = 4,
+}
+
+/// Callbacks supplied by the harness.
+#[derive(Clone, Copy)]
+pub struct Hooks {
+    /// Called at every [`Site`].
+    pub point: fn(Site),
+    /// Called with the needle length and the anchor position drawn by
+    /// production code; returns the position to use.
+    pub anchor: fn(len: usize, drawn: usize) -> usize,
+}
+
+static HOOKS: OnceLock<Hooks> = OnceLock::new();
+
+/// Installs the hooks (once per process). Returns `false` if already installed.
+pub fn install(hooks: Hooks) -> bool {
+    HOOKS.set(hooks).is_ok()
+}
+
+#[inline]
+pub(crate) fn point(site: Site) {
+    if let Some(hooks) = HOOKS.get() {
+        (hooks.point)(site)
+    }
+}
+
+#[inline]
+#[allow(dead_code)]
+pub(crate) fn anchor(len: usize, drawn: usize) -> usize {
+    match HOOKS.get() {
+        Some(hooks) => (hooks.anchor)(len, drawn),
+        None => drawn,
+    }
+}
+
+/// Whether the SIMD substring search path is active in this process.
+/// Reading it forces the lazily latched switch.
+pub fn simd_active() -> bool {
+    crate::ast::field_expr::verif_simd_active()
+}
+
+/// Number of active catching `catch_panic` frames on the current thread.
+pub fn panic_catcher_level() -> u64 {
+    crate::panic::verif_level()
+}
+
+/// Whether the panic catcher is enabled on the current thread.
+pub fn panic_catcher_enabled() -> bool {
+    crate::panic::verif_enabled()
+}
+
+/// Forgets that the panic catcher hook was installed (test harness only; the
+/// harness is responsible for resetting the std panic hook itself).
+pub fn panic_catcher_reset_hook_flag() {
+    crate::panic::verif_reset_hook_flag()
+}
